@@ -333,10 +333,16 @@ func pRun(sc pScript) (res pResult) {
 		panic(pInfra(err.Error()))
 	}
 	defer sink.stop()
-	rs := &RawSocket{config: RawSocketConfig{URL: addr, Protocol: sc.Proto, MaxRetry: sc.MaxRetry},
-		logger: log.New(ioutil.Discard, "", 0)}
-	rs.connection, err = net.Dial(sc.Proto, addr) // what setup() does after loading the configuration
+	// the real setup(): defaults, the configuration file, the first connection
+	cf, err := ioutil.TempFile("", "verif-rawsocket-*.conf")
 	if err != nil {
+		panic(pInfra(err.Error()))
+	}
+	fmt.Fprintf(cf, "url: %s\nprotocol: %s\nretry-max: %d\n", addr, sc.Proto, sc.MaxRetry)
+	cf.Close()
+	defer os.Remove(cf.Name())
+	rs := &RawSocket{}
+	if err = rs.setup(cf.Name(), log.New(ioutil.Discard, "", 0)); err != nil {
 		panic(pInfra(err.Error()))
 	}
 	initPort := 0
